@@ -24,7 +24,7 @@ import (
 	"github.com/flamego/flamego/verifharness/internal/rt"
 )
 
-const rule = "case = options (Charset, JSONIndent, XMLIndent; or none) x Renderer placed as application middleware, group handler or route handler x 1..3 later handlers of which one renders x a render call: JSON of a randomly nested value (maps, slices, strings with <>&, numbers, booleans, null) or of a tagged struct, XML of a struct with attributes, nested, optional and repeated elements, or of a value whose encoding is empty (empty / nil slice, nil pointer), Binary of arbitrary bytes, PlainText of arbitrary text (payloads now and then 0.5..70 KB), with a status in 100..999, for GET / POST / HEAD; optionally the rendering handler first serves a nested request through the same application (which renders something else) before rendering its own response, optionally a middleware in front or the handler itself has already put some other Content-Type on the response. " +
+const rule = "case = options (Charset, JSONIndent, XMLIndent; or none) x Renderer placed as application middleware, group handler or route handler x 1..3 later handlers of which one renders x a render call: JSON of a randomly nested value (maps, slices, strings with <>&, numbers, booleans, null) of a tagged struct, or of a byte slice / named byte slice / json.RawMessage, XML of a struct with attributes, nested, optional and repeated elements, or of a value whose encoding is empty (empty / nil slice, nil pointer), Binary of arbitrary bytes, PlainText of arbitrary text (payloads now and then 0.5..70 KB), with a status in 100..999, for GET / POST / HEAD; optionally the rendering handler first serves a nested request through the same application (which renders something else) before rendering its own response, optionally a middleware in front or the handler itself has already put some other Content-Type on the response. " +
 	"Oracle: the spy writer got exactly the given status once and before the body; Content-Type is the documented media type with the configured (default utf-8) charset; Binary / PlainText bodies are verbatim; the JSON body is valid JSON laid out with the configured indentation and json.Unmarshal of it is DeepEqual to the value; the XML body decodes into an equal struct and is indented iff an indentation is configured; every handler after the middleware receives a Render. " +
 	"non-trivial = a non-200 status, a non-default option, a value nested >= 2 deep, a nested request, a Content-Type set before the render call, or a HEAD request; distinct by case text"
 
@@ -80,6 +80,16 @@ func (c Case) value() interface{} {
 			panic(err)
 		}
 		return v
+	case "jsonbytes":
+		// values the standard encoder treats specially: a byte slice (base64
+		// text), a named byte slice, an already encoded document
+		switch c.Empty {
+		case "named":
+			return namedBytes(c.raw())
+		case "rawmessage":
+			return json.RawMessage(`{"k": [1, 2, {"<a>": "b"}], "t":true}`)
+		}
+		return []byte(c.raw())
 	case "jsonstruct", "xml":
 		p := *c.Person
 		p.XMLName = xml.Name{Local: "person"}
@@ -138,7 +148,7 @@ func checkCase(c Case) (out evid.Outcome) {
 				ctx.ResponseWriter().Header().Set("Content-Type", "text/html; charset=utf-8")
 			}
 			switch c.Kind {
-			case "json", "jsonstruct":
+			case "json", "jsonstruct", "jsonbytes":
 				r.JSON(c.Status, v)
 			case "xml", "xmlempty":
 				r.XML(c.Status, v)
@@ -206,7 +216,7 @@ func checkCase(c Case) (out evid.Outcome) {
 	var wantCT string
 	var wantBody []byte
 	switch c.Kind {
-	case "json", "jsonstruct":
+	case "json", "jsonstruct", "jsonbytes":
 		wantCT = "application/json; charset=" + charset
 		b, err := json.MarshalIndent(v, "", jsonIndent)
 		if jsonIndent == "" {
@@ -252,7 +262,7 @@ func checkCase(c Case) (out evid.Outcome) {
 	// does, or the server underneath) is not this property's business: a HEAD
 	// response without body bytes is fine, one with bytes is checked like GET
 	head := c.Method == "HEAD" && len(spy.Body) == 0
-	if c.Kind == "json" || c.Kind == "jsonstruct" {
+	if c.Kind == "json" || c.Kind == "jsonstruct" || c.Kind == "jsonbytes" {
 		// "via the standard encoder with the configured indentation": the body
 		// must decode back (below) and be laid out with that indentation; how
 		// characters are escaped and whether a newline ends it is not fixed
@@ -305,6 +315,19 @@ func checkCase(c Case) (out evid.Outcome) {
 			var back interface{}
 			if err := json.Unmarshal(spy.Body, &back); err != nil || !reflect.DeepEqual(back, v) {
 				return evid.Fail("json-roundtrip", "the JSON body decodes to %#v (err %v), the value was %#v; %s", back, err, v, desc)
+			}
+		case "jsonbytes":
+			// the same document as the standard encoder makes of it, layout aside
+			std, err := json.Marshal(v)
+			if err != nil {
+				panic(err)
+			}
+			var a, b bytes.Buffer
+			if err := json.Compact(&a, std); err != nil {
+				panic(err)
+			}
+			if err := json.Compact(&b, spy.Body); err != nil || !bytes.Equal(a.Bytes(), b.Bytes()) {
+				return evid.Fail("json-roundtrip", "the JSON body %q is not what the standard encoder makes of the value (%q); %s", clip(spy.Body), clip(std), desc)
 			}
 		case "jsonstruct":
 			var back XPerson
@@ -463,7 +486,7 @@ func genCase(t *rapid.T) Case {
 	c := Case{
 		At:     []string{"use", "group", "route"}[rapid.IntRange(0, 2).Draw(t, "at")],
 		After:  rapid.IntRange(1, 3).Draw(t, "after"),
-		Kind:   []string{"json", "json", "jsonstruct", "xml", "xml", "binary", "text", "xmlempty"}[rapid.IntRange(0, 7).Draw(t, "kind")],
+		Kind:   []string{"json", "json", "jsonstruct", "xml", "xml", "binary", "text", "xmlempty", "jsonbytes"}[rapid.IntRange(0, 8).Draw(t, "kind")],
 		Status: []int{200, 200, 201, 204, 304, 400, 404, 418, 500, 503, 100, 103, 999}[rapid.IntRange(0, 12).Draw(t, "status")],
 		Method: []string{"GET", "GET", "POST", "HEAD"}[rapid.IntRange(0, 3).Draw(t, "method")],
 		Nested: rapid.IntRange(0, 4).Draw(t, "nested") == 0,
@@ -487,6 +510,9 @@ func genCase(t *rapid.T) Case {
 			panic(err)
 		}
 		c.JSON = raw
+	case "jsonbytes":
+		c.Empty = []string{"bytes", "named", "rawmessage"}[rapid.IntRange(0, 2).Draw(t, "jbk")]
+		c.Bytes = strconv.QuoteToASCII(string(rapid.SliceOfN(rapid.Byte(), 1, 24).Draw(t, "jbytes")))
 	case "xmlempty":
 		c.Empty = []string{"slice", "nilslice", "nilptr"}[rapid.IntRange(0, 2).Draw(t, "emptyk")]
 	case "jsonstruct", "xml":
@@ -521,6 +547,8 @@ func TestReplay(t *testing.T) {
 		},
 	})
 }
+
+type namedBytes []byte
 
 // xmlDocument strips an optional XML declaration and surrounding white space.
 func xmlDocument(b []byte) []byte {
